@@ -18,7 +18,7 @@ def RULE(tier):
     return (
         "A real endpoint (acceptor and initiator) brought by real traffic to ACTIVE, to RESENDREQ_AWAITING through a "
         "mid-session gap and through a Logon numbered too high, then fed a history of reference-encoded frames from a "
-        "counterparty with correct CompIDs: type in {application, Heartbeat, TestRequest, ResendRequest, "
+        "counterparty with correct CompIDs: type in {application (MsgType rotating over D, 8, j, AE, a custom type and the session-level Reject 3), Heartbeat, TestRequest, ResendRequest, "
         "SequenceReset-GapFill, SequenceReset-Reset} x MsgSeqNum in {E-2, E-1, E, E+1, E+5} x PossDupFlag in {absent, Y} x "
         f"(for resets) NewSeqNo in {{E-1, E+1, E+4}}: EXHAUSTIVELY all histories of length <= {a} over the full 100-symbol "
         f"alphabet and of length {b} over a 24-symbol reduction, plus Hypothesis histories up to 12 (quick) / 40 (thorough). "
@@ -36,6 +36,9 @@ ASSUMPTIONS = [
     "a history ends when the endpoint disconnects (too-low number outside a resend wait)",
 ]
 TYPES = ["APP", "HB", "TR", "RR", "GF", "RS"]
+# MsgTypes of the "application" symbol, rotated: orders, reports, business reject, a custom type and the session-level
+# Reject (3), which the library hands to on_message like any other (that it does is FREE; that it does so once, in order, is not)
+APP_TYPES = ["D", "8", "D", "j", "UX", "3", "D", "AE"]
 OFFS = [-2, -1, 0, 1, 5]
 NEWS = [-1, 1, 4]
 ROLES = ["acceptor", "initiator"]
@@ -95,8 +98,10 @@ def run_history(acc, role, start, hist, origin):
             off = n - E
             uid += 1
             new = max(E + nw, 1)
+            apptype = APP_TYPES[(uid + len(hist)) % len(APP_TYPES)]
             if t == "APP":
-                fr = b.frame("D", n, [(11, f"id{uid}"), (58, f"payload-{uid}")], possdup=pd)
+                fr = b.frame(apptype, n, [(11, f"id{uid}"), (58, f"payload-{uid}")], possdup=pd)
+                flags.add(f"app-type={apptype}")
             elif t == "HB":
                 fr = b.frame("0", n, [], possdup=pd)
             elif t == "TR":
@@ -124,6 +129,10 @@ def run_history(acc, role, start, hist, origin):
             if deliv and not should:
                 kind = "dup/awaiting/low" if (off < 0 and m.awaiting) else ("above-E" if off > 0 else ("low" if off < 0 else "non-app"))
                 bad(f"R1-{kind}", f"{where}: on_message called for a frame that is not the expected application message ({len(deliv)} calls)")
+            elif should and not disc and len(deliv) > 1:
+                bad("R1-delivered-twice", f"{where}: application message numbered exactly E produced {len(deliv)} on_message calls")
+            elif should and apptype == "3" and not deliv:
+                acc.klass("session-reject-not-handed-to-application-FREE")
             elif should and not disc and len(deliv) != 1:
                 bad("R1-expected-not-delivered", f"{where}: application message numbered exactly E produced {len(deliv)} on_message calls")
             elif should and deliv and deliv[0].get(11, None) != f"id{uid}":
